@@ -4,8 +4,8 @@ CONSTANTS
   NREG = 4
   MEMN = 16
   Dev = {"JalrLinkBeforeBase"}
-  Triples <- TriplesFew
-  MCVals <- ValsFew
+  Triples <- TriplesQuick
+  MCVals <- ValsQuick
   ImmSel = "few"
   GPats = {}
   GVals = {}
